@@ -494,7 +494,7 @@ func (x *xform) walk(node val.V, path []string, threads []thread) (val.V, val.V)
 					x.res.Crossed = true
 					br, bi := x.walk(b, cp, next)
 					x.res.NewBlocks = append(x.res.NewBlocks, br)
-					cr, ci = val.MkLink(graph.CidOf(br)), bi
+					cr, ci = val.MkLink(graph.Relink(child.S, br)), bi
 				}
 			} else {
 				cr, ci = x.walk(child, cp, next)
